@@ -143,29 +143,29 @@ theorem advance_pc (h : TInv net c s) {t : Nat} {th : Thread} {ts : TSt} {i : In
 theorem ThrObl.advance (hT : TreeNet net c) (h : TInv net c s) {t : Nat} {th : Thread} {ts : TSt} {i : Instr} {rest : List Instr}
     (hth : net.threads[t]? = some th) (hts : s.thr[t]? = some ts) (hp : ts.prog = i :: rest)
     (excl : Nat → Prop) (K : Nat → Prop) (hK : ∀ m, s.killedMb m → K m)
-    (hr : ∀ m k, i ≠ .read m k) (hs : ∀ m, i ≠ .send m ∧ i ≠ .close m)
+    (hr : ∀ m k, i = .read m k → excl m) (hs : ∀ m, (i = .send m ∨ i = .close m) → excl m)
     (hk1 : ∀ m, i = .killIfExc m → ts.exc = none ∨ K m)
     (hk2 : ∀ m, i = .killIfOwn m → (∀ r, ts.exc ≠ some (true, r)) ∨ K m)
     (hj : ∀ u, i = .join u → s.endedThr u) : ThrObl net c s excl K t th ts ts.advance := by
   have hprog : ts.advance.prog = rest := by simp [TSt.advance, hp]
   refine ⟨advance_pc h hth hts hp, ?_, ?_, ?_, ?_, ?_, ?_, ?_⟩
   · -- wait: a waiting subscriber of t would have `read` as head
-    intro m a k sb x _ hm hk hw hrd
+    intro m a k sb x hne hm hk hw hrd
     obtain ⟨_, _, tsr, rest', hr1, hr2⟩ := h.wait m a k sb x hm hk hw
     rw [hrd, hts] at hr1; cases hr1
     rw [hp] at hr2; cases hr2
-    exact absurd rfl (hr m k)
-  · intro m a k sb _ hm hk hrd hin
+    exact absurd (hr m k rfl) hne
+  · intro m a k sb hne hm hk hrd hin
     have := h.rd m a k sb ts hm hk (by rw [hrd]; exact hts) (by simpa [TSt.advance] using hin)
-    rw [hp, count_cons_ne (hr m k)] at this
+    rw [hp, count_cons_ne (fun he => hne (hr m k he))] at this
     rw [hprog]; exact this
-  · intro m a _ hmlt hm hsd
+  · intro m a hne hmlt hm hsd
     obtain ⟨_, _, h3⟩ := h.snd m a hmlt hm
     obtain ⟨h4, h5⟩ := h3 ts (by rw [hsd]; exact hts)
     constructor
     · intro hin
       have := h4 (by simpa [TSt.advance] using hin)
-      rw [hp, countOut_cons_other (hs m).1 (hs m).2] at this
+      rw [hp, countOut_cons_other (fun he => hne (hs m (Or.inl he))) (fun he => hne (hs m (Or.inr he)))] at this
       rw [hprog]; exact this
     · intro hc; have := (h5 hc).1; rw [hp] at this; cases this
   · intro own r hin hexc
